@@ -2,7 +2,8 @@ import FiberModel.C03.Complete
 import FiberModel.C03.Parse
 import FiberModel.C03.Serve
 import FiberModel.C03.Trim
-import FiberModel.C03.Known
+import FiberModel.C03.Names
+import FiberModel.C03.Escape
 import FiberModel.C02.Props
 /-
 C03 — property theorems (only).
@@ -12,8 +13,10 @@ Staging of the completeness statement as in DESIGN §6 C03:
   (ii-a) greedy parameter followed by a literal whose search text occurs once in the rest  — proved
   (ii-b) greedy parameter whose literal re-occurs later (`findGreedyParamLen`)             — proved
          (Greedy.lean: `count_eq_cntR`, `count_fill`, `greedy_strip`).
-The main theorem keeps the name `fill_match_complete_partial` only because of known finding K1
-(search text = literal minus trailing slashes); the full statement is in its comment.
+The statements are at full strength: the occurrence condition is the property sentence's `CleanFill`
+(no additional occurrence of the *literal* that follows a parameter). Former known finding K1 (the
+matcher searched for the literal minus its trailing slashes) is repaired in fiber: `findParamLen`
+searches for the following constant in full whenever the path holds it (`C02.fullConst`).
 -/
 namespace C03
 open B C02
@@ -174,34 +177,34 @@ theorem foldPat_escFree (cfg : Config) (p : Pat) (h : litsEscFree p) : litsEscFr
 
 /-- **fill → match completeness** (all stages of DESIGN §6 C03: (i) non-greedy / last parameters,
     (ii-a) greedy parameters whose delimiter occurs once, (ii-b) greedy parameters whose delimiter
-    re-occurs behind them — `findGreedyParamLen` / `PartCount`).
+    re-occurs behind them — `findGreedyParamLen` / `PartCount`), at full strength:
+    `Delimited p → CleanFill p vals → getMatch (parse p) (fill p vals) = some vals`.
 
-    Full statement (DESIGN): `Delimited p → CleanFill p vals → getMatch (parse p) (fill p vals) = some vals`.
-    Proved here with `CleanFillCmp` instead of `CleanFill`: the occurrence condition is taken for
-    the literal *without its trailing slashes* (what the matcher searches for). Where the two differ
-    is known finding K1 (`fill_match_witness_K1`, `fill_match_complete_sentence_partial` below); that is the
-    only reason the theorem keeps the suffix `_partial`.
+    What the matcher searches for behind a parameter followed by the literal `L`: the literal itself
+    when it has no trailing slashes to lose (or is a single `/`); otherwise `ComparePart` is `L`
+    minus its trailing slashes, but `findParamLen` replaces it by `L` in full whenever the path holds
+    `L` (`C02.fullConst`; the fill always does), recounting `PartCount` for `L`, and a greedy
+    parameter then always searches from the right. Either way the search text `K` is `L` on a fill.
 
-    Which fillings the matcher serves behind a greedy parameter: with `K` the search text of the
-    following literal, `strings.Count(rest of the path, K)` non-overlapping occurrences are seen;
-    if that is more than one, `PartCount` (= Σ `strings.Count(literal, K)` over the literals behind
-    the parameter, the directly following one included) occurrences are cut off from the right
-    with `strings.LastIndex`. For a clean filling – the rest of the path holds exactly the literals'
-    occurrences of `K`, at any offset, overlapping ones included – no occurrence touches a value, so
-    the count from the left is `PartCount` (`count_fill`), as many can be cut from the right
-    (`count_eq_cntR`, also for self-overlapping `K` such as `--`), and the last cut is the
-    occurrence directly behind the value (`greedy_strip`).
+    Which fillings the matcher serves behind a greedy parameter: `strings.Count(rest of the path, K)`
+    non-overlapping occurrences are seen; `PartCount` (= Σ `strings.Count(literal, K)` over the
+    literals behind the parameter, the directly following one included) occurrences are cut off
+    from the right with `strings.LastIndex`. For a clean filling – the rest of the path holds exactly
+    the literals' occurrences of `K`, at any offset, overlapping ones included – no occurrence
+    touches a value, so the count from the left is `PartCount` (`count_fill`), as many can be cut
+    from the right (`count_eq_cntR`, also for self-overlapping `K` such as `--`), and the last cut is
+    the occurrence directly behind the value (`greedy_strip_key`).
 
     For every configuration (case folding), every token list `p` (with segment list `segs`), every
     value assignment `vals` and anything (`extra`) behind the filled path – e.g. trailing slashes
     the configuration ignores: on the case-folded fill as detection path and the fill as written as
     user path, `getMatch` succeeds and reports exactly `vals`. -/
-theorem fill_match_complete_partial {chk : Constraint → Bytes → Bool} (cfg : Config)
+theorem fill_match_complete {chk : Constraint → Bytes → Bool} (cfg : Config)
     {p : Pat} {vals : List Bytes} {segs : List Seg} (extra : Bytes)
     (hs : segsOf (foldPat cfg p) = some segs)
     (hd : Delimited p = true) (hesc : litsEscFree p)
     (hn : vals.length = (p.filter (·.isParam)).length)
-    (hcl : CleanFillCmp (foldPat cfg p) (foldVals cfg vals) = true) :
+    (hcl : CleanFill (foldPat cfg p) (foldVals cfg vals) = true) :
     getMatch chk segs (foldBytes cfg (fill p vals)) (fill p vals ++ extra) false = some vals := by
   obtain ⟨hcore, hm, hm2⟩ := segsOf_ok hs
   rw [← fill_fold]
@@ -215,67 +218,43 @@ example :
     let p : Pat := [.lit (b "/api/"), .named (b "x") false, .lit (b "-"), .named (b "y") true,
                     .lit (b "/files/"), .star]
     let vals := [b "Ab", [], b "a/b.txt"]
-    (Delimited p && CleanFillCmp (foldPat {} p) (foldVals {} vals) &&
+    (Delimited p && CleanFill (foldPat {} p) (foldVals {} vals) &&
      (match segsOf (foldPat {} p) with
       | some segs => getMatch (fun _ _ => true) segs (foldBytes {} (fill p vals)) (fill p vals) false == some vals
       | none => false)) = true := by decide
 
-/-- non-vacuity, stage (ii-b): slash, star, the literal dash-dash-slash, plus, the literal
-    dash-dash-dash-x (self-overlapping search text "dash dash", which re-occurs in the later literal
-    twice by position, once by `strings.Count`) filled with `a-b`, `c/d`:
-    the hypotheses hold, `greedyOnce` fails (the loop of `findGreedyParamLen` runs), the route
+/-- non-vacuity, stage (ii-b), search text = the literal (no trailing slash): slash, star, the
+    literal dash-dash, plus, the literal dash-dash-dash-x (self-overlapping search text, which
+    re-occurs in the later literal twice by position, once by `strings.Count`) filled with `a-b`,
+    `c/d`: the hypotheses hold, `greedyOnce` fails (the loop of `findGreedyParamLen` runs), the route
     matches with exactly these values. -/
 example :
-    let p : Pat := [.lit (b "/"), .star, .lit (b "--/"), .plus, .lit (b "---x")]
+    let p : Pat := [.lit (b "/"), .star, .lit (b "--"), .plus, .lit (b "---x")]
     let vals := [b "a-b", b "c/d"]
-    (Delimited p && CleanFillCmp (foldPat {} p) (foldVals {} vals) &&
-     !greedyOnce cmpOfConst (foldPat {} p) (foldVals {} vals) &&
+    (Delimited p && CleanFill (foldPat {} p) (foldVals {} vals) &&
+     !greedyOnce id (foldPat {} p) (foldVals {} vals) &&
      (match segsOf (foldPat {} p) with
       | some segs => getMatch (fun _ _ => true) segs (foldBytes {} (fill p vals)) (fill p vals) false == some vals
       | none => false)) = true := by decide
 
-/-- Where the sentence's `CleanFill` holds and the region of known finding K1 is left, the
-    matcher-side condition holds. -/
-theorem cleanFill_not_K1 (cfg : Config) (p : Pat) (vals : List Bytes)
-    (h : CleanFill (foldPat cfg p) (foldVals cfg vals) = true) (hk : Known.K1 cfg p vals = false) :
-    CleanFillCmp (foldPat cfg p) (foldVals cfg vals) = true := by
-  unfold Known.K1 at hk
-  rw [h] at hk
-  simpa using hk
-
-/-- **fill → match completeness in the sentence's own terms, outside known finding K1.** With the
-    property sentence's `CleanFill` (no additional occurrence of the *literal* that follows a
-    parameter) and the case outside the region `Known.K1`: the route matches and the values come
-    back exactly. `_partial` only for the K1 hypothesis. -/
-theorem fill_match_complete_sentence_partial {chk : Constraint → Bytes → Bool} (cfg : Config)
-    {p : Pat} {vals : List Bytes} {segs : List Seg} (extra : Bytes)
-    (hs : segsOf (foldPat cfg p) = some segs)
-    (hd : Delimited p = true) (hesc : litsEscFree p)
-    (hn : vals.length = (p.filter (·.isParam)).length)
-    (hcl : CleanFill (foldPat cfg p) (foldVals cfg vals) = true)
-    (hk : Known.K1 cfg p vals = false) :
-    getMatch chk segs (foldBytes cfg (fill p vals)) (fill p vals ++ extra) false = some vals :=
-  fill_match_complete_partial cfg extra hs hd hesc hn (cleanFill_not_K1 cfg p vals hcl hk)
-
-/-- non-vacuity: `/ab/+/a/+.tar.gz`-like pattern without trailing-slash literals, the delimiter `.`
-    re-occurring in a later literal; sentence-level `CleanFill`, outside K1 -/
+/-- non-vacuity, the literal has trailing slashes (the region of former known finding K1), greedy:
+    slash, plus, the literal dash-slash, star, the literal dash-slash, star. The values `q`, `r`,
+    `c-d` hold the slash-less search text `-` of `ComparePart` but create no occurrence of the
+    literal; counting `-` lands the right-to-left loop on the second literal (the old 404), counting
+    the literal in full returns the values. -/
 example :
     let cfg : Config := { caseSensitive := true, strictRouting := true }
-    let p : Pat := [.lit (b "/v"), .plus, .lit (b ".t"), .star, .lit (b ".tar.gz")]
-    let vals := [b "1/2", b "A-b"]
-    (Delimited p && CleanFill (foldPat cfg p) (foldVals cfg vals) && !Known.K1 cfg p vals &&
-     !greedyOnce cmpOfConst (foldPat cfg p) (foldVals cfg vals)) = true := by decide
-
-/-- K1 witness (strict, case-sensitive): named parameter followed by the literal dash-slash,
-    value `a-b`. The fill creates no additional occurrence of the literal, yet the route does not
-    match, because the matcher looks for the literal without its trailing slash. -/
-theorem fill_match_witness_K1 :
-    let cfg : Config := { caseSensitive := true, strictRouting := true }
-    let p : Pat := [.lit (b "/"), .named (b "x") false, .lit (b "-/")]
-    let vals := [b "a-b"]
-    (WFPat p && Delimited p && CleanFill (foldPat cfg p) (foldVals cfg vals) && Known.K1 cfg p vals &&
-     (match register cfg false (patText p) with
-      | some r => routeMatch (fun _ _ => true) r (fill p vals) (fill p vals) == none
+    let p : Pat := [.lit (b "/"), .plus, .lit (b "-/"), .star, .lit (b "-/"), .star]
+    let vals := [b "q", b "r", b "c-d"]
+    (Delimited p && CleanFill (foldPat cfg p) (foldVals cfg vals) &&
+     !cleanFillWith cmpOfConst (foldPat cfg p) (foldVals cfg vals) &&
+     (match segsOf (foldPat cfg p) with
+      | some segs =>
+        getMatch (fun _ _ => true) segs (foldBytes cfg (fill p vals)) (fill p vals) false == some vals &&
+        -- without the replacement (`findParamLen` on the segment's own `ComparePart`) the first cut is wrong
+        (match segs with
+         | _ :: s1 :: rest => findParamLen (b "q-/r-/c-d") s1 != 1 && paramLen (b "q-/r-/c-d") s1 rest == 1
+         | _ => false)
       | none => false)) = true := by decide
 
 /-! ## The decision under the configuration -/
@@ -544,35 +523,22 @@ theorem text_len_ge2 {p : Pat} (hwf : WFPat p = true) (hp : p.filter (·.isParam
   simp only [Tok.text, List.length_append, List.length_cons]
   omega
 
-/-- **The filled path is served, end to end** (model of `app.Get(pattern)` + one request +
-    `RoutePatternMatch`). For every configuration, every token list `p` of the documented syntax
-    (`WFPat`) that is `Delimited`, every assignment `vals` that is clean w.r.t. the matcher's search
-    texts (`CleanFillCmp`; = the sentence's `CleanFill` outside known finding K1, see
-    `fill_served_sentence_partial`), with `trailingOK` (without StrictRouting the fill does not end
-    in a slash), and every request path `orig` whose user-visible form (percent-decoded iff
-    UnescapePath) is the fill *up to the letter case the configuration ignores*:
-
-    * registering the pattern text does not panic and yields a route `r`,
-    * dispatching the request to an app holding only `r` (tree index, `Route.match` with its `/`,
-      `/*` and parameter-free shortcuts, `getMatch`) matches and writes exactly the values as they
-      stand in the request (`slicesOf`: the user-visible path cut at the value boundaries; these
-      are `vals` themselves when the path is the fill as written, `fill_served_values_partial`),
-    * `RoutePatternMatch(orig, text, cfg)` is true.
-
-    This closes the gap between the induction over segment lists (`fill_match_complete_partial`) and
-    the route the app really holds: the parser on the prettified text (`parseRoute_patText`), the
-    case folding of literals and names, the trailing-slash trimming on both sides. `_partial` only
-    because `CleanFillCmp` stands in for `CleanFill` (K1). -/
-theorem fill_served_partial {chk : Constraint → Bytes → Bool} (cfg : Config) {p : Pat} {vals : List Bytes}
-    (orig : Bytes) (hwf : WFPat p = true) (hd : Delimited p = true)
+/-- The route `register` builds for a documented-syntax pattern, against the case-folded fill as
+    detection path and an ARBITRARY user-visible path `upath`: `Route.match` succeeds; when `upath`
+    has the length of the fill, the values written are its slices at the value positions. (For a
+    longer `upath` – the fill plus ignored trailing slashes – `getMatch` still cuts the slices, only
+    the catch-all shortcut of the pattern `/*` hands out the whole rest of the path.) Also the two
+    parser facts `rpm_eq_single_route_dispatch` needs. -/
+theorem served_route {chk : Constraint → Bytes → Bool} (cfg : Config) {p : Pat} {vals : List Bytes}
+    (hwf : WFPat p = true) (hd : Delimited p = true)
     (hn : vals.length = (p.filter (·.isParam)).length)
-    (hcl : CleanFillCmp (foldPat cfg p) (foldVals cfg vals) = true)
-    (htr : trailingOK cfg p vals = true)
-    (horig : foldBytes cfg (configDependentPaths cfg orig).1 = foldBytes cfg (fill p vals)) :
+    (hcl : CleanFill (foldPat cfg p) (foldVals cfg vals) = true)
+    (htr : trailingOK cfg p vals = true) :
     ∃ r, register cfg false (patText p) = some r ∧
-      dispatch1 chk r (configDependentPaths cfg orig).2 (configDependentPaths cfg orig).1 =
-        some (slicesOf p vals (configDependentPaths cfg orig).1) ∧
-      routePatternMatch chk cfg orig (patText p) = some true := by
+      ((r.params.length > 0) ↔ (r.parser.params.length > 0)) ∧
+      (r.root = true → ¬ (r.parser.params.length > 0)) ∧
+      ∀ upath : Bytes, ∃ vs, routeMatch chk r (foldBytes cfg (fill p vals)) upath = some vs ∧
+        (upath.length = (fill p vals).length → vs = slicesOf p vals upath) := by
   obtain ⟨hok, hsh⟩ := wfPat_tokOK hwf
   have hokq := tokOK_prettyPat cfg hok
   have hshq : shapeOK (prettyPat cfg p) = true := by rw [shapeOK_pretty]; exact hsh
@@ -589,135 +555,283 @@ theorem fill_served_partial {chk : Constraint → Bytes → Bool} (cfg : Config)
     unfold register
     simp only [hraw, hpretty, hclean, parseRouteW_noLT _ (patText_noLT _ hokq), parseRoute_patText hwf,
       parseRoute_patText' hokq hshq, hsr, hsp, Option.map_some]
-  have hdet := det_of_fill htr horig
   have hlenr : (paramNames sr).length = (p.filter (·.isParam)).length := segsOf_params_len hsr
   have hlenp : (paramNames sp).length = (p.filter (·.isParam)).length := by
     rw [segsOf_params_len hsp, filter_isParam_pretty]
-  generalize hup : (configDependentPaths cfg orig).1 = upath at *
-  have huplen : upath.length = (fill p vals).length := by
+  refine ⟨_, hreg, by simp only [hlenr, hlenp], ?_, fun upath => ?_⟩
+  · simp only [beq_iff_eq]
+    intro hroot hpar
+    rw [hlenp] at hpar
+    have h2 := text_len_ge2 hwf (List.length_pos_iff.mp hpar)
+    have := congrArg List.length hroot
+    rw [patText_prettyPat, foldBytes_length] at this
+    simp at this; omega
+  -- the dispatch
+  by_cases hnp : p.filter (·.isParam) = []
+  · -- a single literal
+    obtain ⟨l, rfl⟩ := wfPat_noParam hwf hnp
+    have hv : vals = [] := List.eq_nil_of_length_eq_zero (by rw [hn, hnp]; rfl)
+    subst hv
+    have hT : patText (prettyPat cfg [Tok.lit l]) = foldBytes cfg l := by
+      rw [patText_prettyPat]; simp [patText, Tok.text]
+    have hF : fill [Tok.lit l] [] = l := by simp [fill]
+    have hS : slicesOf [Tok.lit l] [] upath = [] := by simp [slicesOf]
+    refine ⟨[], ?_, fun _ => hS.symm⟩
+    unfold routeMatch
+    simp only [hT, hF]
+    split
+    · rfl
+    · have hstar : (foldBytes cfg l == [SLASH, STAR]) = false := by
+        rw [beq_eq_false_iff_ne]
+        intro h
+        have := star_shape (cfg := cfg) hwf (by simpa [patText, Tok.text] using h)
+        simp at this
+      have hpl : ¬ ((paramNames sr).length > 0) := by rw [hlenr, hnp]; simp
+      simp [hstar, hpl]
+  · -- at least one parameter
+    have h2 := text_len_ge2 hwf hnp
+    have hroot : (patText (prettyPat cfg p) == [SLASH]) = false := by
+      rw [beq_eq_false_iff_ne]
+      intro h
+      have := congrArg List.length h
+      rw [patText_prettyPat, foldBytes_length] at this
+      simp at this; omega
+    by_cases hstar : patText (prettyPat cfg p) = [SLASH, STAR]
+    · have hp := star_shape (cfg := cfg) hwf (by rw [← patText_prettyPat]; exact hstar)
+      subst hp
+      have hbeq : (patText (prettyPat cfg [Tok.lit [SLASH], Tok.star]) == [SLASH, STAR]) = true := by
+        rw [hstar]; rfl
+      have hrm : routeMatch chk
+          { pathRaw := patText [Tok.lit [SLASH], Tok.star], path := patText (prettyPat cfg [Tok.lit [SLASH], Tok.star]),
+            params := paramNames sr, parser := { segs := sp, params := paramNames sp }, use := false,
+            star := patText (prettyPat cfg [Tok.lit [SLASH], Tok.star]) == [SLASH, STAR],
+            root := patText (prettyPat cfg [Tok.lit [SLASH], Tok.star]) == [SLASH] }
+          (foldBytes cfg (fill [Tok.lit [SLASH], Tok.star] vals)) upath = some [upath.drop 1] := by
+        unfold routeMatch
+        simp only [hroot, Bool.false_and, Bool.false_eq_true, if_false, hbeq, if_true]
+      refine ⟨[upath.drop 1], hrm, fun huplen => ?_⟩
+      match vals, hn, huplen with
+      | [v], _, huplen =>
+        simp only [fill, List.headD_cons, List.length_append, List.length_cons, List.length_nil] at huplen
+        simp only [slicesOf, List.headD_cons, List.length_cons, List.length_nil]
+        rw [List.take_of_length_le (by simp only [List.length_drop]; omega)]
+    · have hbeq : (patText (prettyPat cfg p) == [SLASH, STAR]) = false := beq_eq_false_iff_ne.mpr hstar
+      have hpl : (paramNames sr).length > 0 := by
+        rw [hlenr]; exact List.length_pos_iff.mpr hnp
+      refine ⟨slicesOf p vals upath, ?_, fun _ => rfl⟩
+      unfold routeMatch
+      simp only [hroot, Bool.false_and, Bool.false_eq_true, if_false, hbeq, hpl, if_true]
+      -- the induction, on the routed token list
+      obtain ⟨hcore, hm, hm2⟩ := segsOf_ok hsp
+      rw [← fill_fold, ← fill_ren (foldBytes cfg), ← prettyPat_eq]
+      exact getMatch_fill (chk := chk) (prettyPat cfg p) 0 0 sp (foldVals cfg vals) (slicesOf p vals upath) upath
+        hcore hm hm2 (segsOf_partCount hsp)
+        (by rw [prettyPat_eq, delimited_ren, foldPat_delimited]; exact hd)
+        (by rw [prettyPat_eq]; exact litsEscFree_ren _ _ (foldPat_escFree cfg p (wfPat_escFree hwf)))
+        (by rw [prettyPat_eq, cleanFillWith_ren]; exact hcl)
+        (by rw [prettyPat_eq]; exact pathFor_ren _ _ _ _ _ (pathFor_slices cfg p vals upath hn))
+
+/-- a request whose path is empty has an empty user-visible path -/
+theorem upath_nil (cfg : Config) : (configDependentPaths cfg []).1 = [] := by
+  unfold configDependentPaths; simp only; split <;> simp [unquote]
+
+/-- **The filled path is served, end to end** (model of `app.Get(pattern)` + one request +
+    `RoutePatternMatch`). For every configuration, every token list `p` of the documented syntax
+    (`WFPat`) that is `Delimited`, every assignment `vals` that is clean in the property sentence's
+    sense (`CleanFill`: no additional occurrence of a literal that follows a parameter), with
+    `trailingOK` (without StrictRouting the fill does not end in a slash), and every request path
+    `orig` whose user-visible form (percent-decoded iff UnescapePath) is the fill *up to the letter
+    case the configuration ignores*:
+
+    * registering the pattern text does not panic and yields a route `r`,
+    * dispatching the request to an app holding only `r` (tree index, `Route.match` with its `/`,
+      `/*` and parameter-free shortcuts, `getMatch`) matches and writes exactly the values as they
+      stand in the request (`slicesOf`: the user-visible path cut at the value boundaries; these
+      are `vals` themselves when the path is the fill as written, `fill_served_values`),
+    * `RoutePatternMatch(orig, text, cfg)` is true.
+
+    This closes the gap between the induction over segment lists (`fill_match_complete`) and
+    the route the app really holds: the parser on the prettified text (`parseRoute_patText`), the
+    case folding of literals and names, the trailing-slash trimming on both sides. Full strength
+    since the repair of former known finding K1. -/
+theorem fill_served {chk : Constraint → Bytes → Bool} (cfg : Config) {p : Pat} {vals : List Bytes}
+    (orig : Bytes) (hwf : WFPat p = true) (hd : Delimited p = true)
+    (hn : vals.length = (p.filter (·.isParam)).length)
+    (hcl : CleanFill (foldPat cfg p) (foldVals cfg vals) = true)
+    (htr : trailingOK cfg p vals = true)
+    (horig : foldBytes cfg (configDependentPaths cfg orig).1 = foldBytes cfg (fill p vals)) :
+    ∃ r, register cfg false (patText p) = some r ∧
+      dispatch1 chk r (configDependentPaths cfg orig).2 (configDependentPaths cfg orig).1 =
+        some (slicesOf p vals (configDependentPaths cfg orig).1) ∧
+      routePatternMatch chk cfg orig (patText p) = some true := by
+  obtain ⟨r, hreg, harity, hrootnp, hall⟩ := served_route (chk := chk) cfg hwf hd hn hcl htr
+  have hdet := det_of_fill htr horig
+  have huplen : (configDependentPaths cfg orig).1.length = (fill p vals).length := by
     have := congrArg List.length horig
     simpa [foldBytes_length] using this
   have hne : orig ≠ [] := by
     intro h
     subst h
     obtain ⟨l', rest, rfl⟩ := wfPat_head hwf
-    have : upath = [] := by
-      rw [← hup]; unfold configDependentPaths; simp only; split <;> simp [unquote]
-    rw [this] at huplen
+    rw [upath_nil] at huplen
     simp [fill] at huplen
-  -- the dispatch
-  have hdisp : routeMatch chk
-      { pathRaw := patText p, path := patText (prettyPat cfg p), params := paramNames sr,
-        parser := { segs := sp, params := paramNames sp }, use := false,
-        star := patText (prettyPat cfg p) == [SLASH, STAR], root := patText (prettyPat cfg p) == [SLASH] }
-      (foldBytes cfg (fill p vals)) upath = some (slicesOf p vals upath) := by
-    by_cases hnp : p.filter (·.isParam) = []
-    · -- a single literal
-      obtain ⟨l, rfl⟩ := wfPat_noParam hwf hnp
-      have hv : vals = [] := List.eq_nil_of_length_eq_zero (by rw [hn, hnp]; rfl)
-      subst hv
-      have hT : patText (prettyPat cfg [Tok.lit l]) = foldBytes cfg l := by
-        rw [patText_prettyPat]; simp [patText, Tok.text]
-      have hF : fill [Tok.lit l] [] = l := by simp [fill]
-      have hS : slicesOf [Tok.lit l] [] upath = [] := by simp [slicesOf]
-      unfold routeMatch
-      simp only [hT, hF, hS]
-      split
-      · rfl
-      · have hstar : (foldBytes cfg l == [SLASH, STAR]) = false := by
-          rw [beq_eq_false_iff_ne]
-          intro h
-          have := star_shape (cfg := cfg) hwf (by simpa [patText, Tok.text] using h)
-          simp at this
-        have hpl : ¬ ((paramNames sr).length > 0) := by rw [hlenr, hnp]; simp
-        simp [hstar, hpl]
-    · -- at least one parameter
-      have h2 := text_len_ge2 hwf hnp
-      have hroot : (patText (prettyPat cfg p) == [SLASH]) = false := by
-        rw [beq_eq_false_iff_ne]
-        intro h
-        have := congrArg List.length h
-        rw [patText_prettyPat, foldBytes_length] at this
-        simp at this; omega
-      unfold routeMatch
-      simp only [hroot, Bool.false_and, Bool.false_eq_true, if_false]
-      by_cases hstar : patText (prettyPat cfg p) = [SLASH, STAR]
-      · have hp := star_shape (cfg := cfg) hwf (by rw [← patText_prettyPat]; exact hstar)
-        subst hp
-        have hbeq : (patText (prettyPat cfg [Tok.lit [SLASH], Tok.star]) == [SLASH, STAR]) = true := by
-          rw [hstar]; rfl
-        simp only [hbeq, if_true]
-        match vals, hn, huplen with
-        | [v], _, huplen =>
-          simp only [fill, List.headD_cons, List.length_append, List.length_cons, List.length_nil] at huplen
-          simp only [slicesOf, List.headD_cons, List.length_cons, List.length_nil]
-          rw [List.take_of_length_le (by simp only [List.length_drop]; omega)]
-      · have hbeq : (patText (prettyPat cfg p) == [SLASH, STAR]) = false := beq_eq_false_iff_ne.mpr hstar
-        have hpl : (paramNames sr).length > 0 := by
-          rw [hlenr]; exact List.length_pos_iff.mpr hnp
-        simp only [hbeq, Bool.false_eq_true, if_false, hpl, if_true]
-        -- the induction, on the routed token list
-        obtain ⟨hcore, hm, hm2⟩ := segsOf_ok hsp
-        rw [← fill_fold, ← fill_ren (foldBytes cfg), ← prettyPat_eq]
-        exact getMatch_fill (chk := chk) (prettyPat cfg p) 0 0 sp (foldVals cfg vals) (slicesOf p vals upath) upath
-          hcore hm hm2 (segsOf_partCount hsp)
-          (by rw [prettyPat_eq, delimited_ren, foldPat_delimited]; exact hd)
-          (by rw [prettyPat_eq]; exact litsEscFree_ren _ _ (foldPat_escFree cfg p (wfPat_escFree hwf)))
-          (by rw [prettyPat_eq, cleanFillWith_ren]; exact hcl)
-          (by rw [prettyPat_eq]; exact pathFor_ren _ _ _ _ _ (pathFor_slices cfg p vals upath hn))
-  refine ⟨_, hreg, ?_, ?_⟩
+  obtain ⟨vs, hvs, hsl⟩ := hall (configDependentPaths cfg orig).1
+  have hdisp : routeMatch chk r (foldBytes cfg (fill p vals)) (configDependentPaths cfg orig).1 =
+      some (slicesOf p vals (configDependentPaths cfg orig).1) := by rw [hvs, hsl huplen]
+  refine ⟨r, hreg, ?_, ?_⟩
   · rw [dispatch1_eq_routeMatch hreg, hdet]
     exact hdisp
-  · rw [rpm_eq_single_route_dispatch hreg orig hne
-      (by simp only [hlenr, hlenp])
-      (by
-        simp only [beq_iff_eq]
-        intro hroot hpar
-        rw [hlenp] at hpar
-        have h2 := text_len_ge2 hwf (List.length_pos_iff.mp hpar)
-        have := congrArg List.length hroot
-        rw [patText_prettyPat, foldBytes_length] at this
-        simp at this; omega)]
-    rw [dispatch1_eq_routeMatch hreg, hup, hdet, hdisp]
+  · rw [rpm_eq_single_route_dispatch hreg orig hne harity hrootnp, dispatch1_eq_routeMatch hreg, hdet, hdisp]
     rfl
+
+/-- request-side normalisation of "the fill plus trailing slashes" without StrictRouting -/
+theorem det_of_fill_slashes {cfg : Config} {p : Pat} {vals : List Bytes} {orig : Bytes} (n : Nat)
+    (hst : cfg.strictRouting = false) (hne : fill p vals ≠ [])
+    (hlast : (fill p vals).getLast? ≠ some SLASH)
+    (horig : foldBytes cfg (configDependentPaths cfg orig).1 =
+      foldBytes cfg (fill p vals) ++ List.replicate n SLASH) :
+    (configDependentPaths cfg orig).2 = foldBytes cfg (fill p vals) := by
+  rw [det_eq_detOfPath cfg orig]
+  generalize (configDependentPaths cfg orig).1 = upath at horig ⊢
+  unfold detOfPath configDependentPaths
+  simp only [Bool.false_eq_true, if_false]
+  have hfold : ∀ x : Bytes, (if (!cfg.caseSensitive) = true then toLower x else x) = foldBytes cfg x := by
+    intro x; unfold foldBytes; cases cfg.caseSensitive <;> rfl
+  rw [hfold, horig]
+  have hl2 : (foldBytes cfg (fill p vals)).getLast? ≠ some SLASH := fun hh => hlast (foldBytes_last_slash hh)
+  have hne2 : foldBytes cfg (fill p vals) ≠ [] := by
+    intro hh
+    have := congrArg List.length hh
+    rw [foldBytes_length] at this
+    exact hne (List.eq_nil_of_length_eq_zero (by simpa using this))
+  cases n with
+  | zero =>
+    simp only [List.replicate_zero, List.append_nil]
+    split
+    · exact trimRight_of_last_ne _ _ hl2
+    · rfl
+  | succ n =>
+    have hlast' : (foldBytes cfg (fill p vals) ++ List.replicate (n + 1) SLASH).getLast? = some SLASH := by
+      rw [List.replicate_succ', ← List.append_assoc, List.getLast?_append]; simp
+    have hlen : (foldBytes cfg (fill p vals) ++ List.replicate (n + 1) SLASH).length > 1 := by
+      have : (foldBytes cfg (fill p vals)).length ≥ 1 := by
+        cases h : foldBytes cfg (fill p vals) with
+        | nil => exact absurd h hne2
+        | cons _ _ => simp
+      simp; omega
+    simp only [hst, Bool.not_false, hlen, decide_true, hlast', beq_self_eq_true, Bool.and_self, if_true]
+    rw [trimRight_append_same, trimRight_of_last_ne _ _ hl2]
+
+/-- **The decision ignores trailing slashes unless StrictRouting, on filled paths.** Without
+    StrictRouting, for a documented-syntax token list, a clean assignment whose fill does not end in
+    a slash, and every request whose user-visible path (decoded iff UnescapePath) is that fill – up
+    to ignored letter case – followed by ANY number of slashes: the route is registered, the request
+    is dispatched to it (`Route.match` succeeds) and `RoutePatternMatch` is true. (The values are
+    claimed for the fill itself, `fill_served`; behind extra slashes `getMatch` still writes the
+    slices, the catch-all shortcut of `/*` the whole rest of the path.) -/
+theorem fill_slashes_served {chk : Constraint → Bytes → Bool} (cfg : Config) {p : Pat} {vals : List Bytes}
+    (orig : Bytes) (n : Nat) (hwf : WFPat p = true) (hd : Delimited p = true)
+    (hnv : vals.length = (p.filter (·.isParam)).length)
+    (hcl : CleanFill (foldPat cfg p) (foldVals cfg vals) = true)
+    (hst : cfg.strictRouting = false) (hlast : (fill p vals).getLast? ≠ some SLASH)
+    (horig : foldBytes cfg (configDependentPaths cfg orig).1 =
+      foldBytes cfg (fill p vals) ++ List.replicate n SLASH) :
+    ∃ r vs, register cfg false (patText p) = some r ∧
+      dispatch1 chk r (configDependentPaths cfg orig).2 (configDependentPaths cfg orig).1 = some vs ∧
+      routePatternMatch chk cfg orig (patText p) = some true := by
+  have htr : trailingOK cfg p vals = true := by
+    unfold trailingOK
+    simp only [Bool.or_eq_true, decide_eq_true_eq, bne_iff_ne, ne_eq]
+    exact Or.inr hlast
+  obtain ⟨r, hreg, harity, hrootnp, hall⟩ := served_route (chk := chk) cfg hwf hd hnv hcl htr
+  have hfne : fill p vals ≠ [] := by
+    obtain ⟨l', rest, rfl⟩ := wfPat_head hwf
+    simp [fill]
+  have hdet := det_of_fill_slashes n hst hfne hlast horig
+  have hne : orig ≠ [] := by
+    intro h
+    subst h
+    rw [upath_nil] at horig
+    have := congrArg List.length horig
+    simp only [foldBytes_length, List.length_nil, List.length_append, List.length_replicate] at this
+    have : (fill p vals).length = 0 := by omega
+    exact hfne (List.eq_nil_of_length_eq_zero this)
+  obtain ⟨vs, hvs, _⟩ := hall (configDependentPaths cfg orig).1
+  refine ⟨r, vs, hreg, ?_, ?_⟩
+  · rw [dispatch1_eq_routeMatch hreg, hdet]
+    exact hvs
+  · rw [rpm_eq_single_route_dispatch hreg orig hne harity hrootnp, dispatch1_eq_routeMatch hreg, hdet, hvs]
+    rfl
+
+/-- non-vacuity: default configuration, `/Api/:Id-*` filled with `A7`, `b/c`; the request is in
+    another letter case and adds three slashes -/
+example :
+    let cfg : Config := {}
+    let p : Pat := [.lit (b "/Api/"), .named (b "Id") false, .lit (b "-"), .star]
+    let vals := [b "A7", b "b/c"]
+    let orig := b "/api/a7-B/c///"
+    (WFPat p && Delimited p && CleanFill (foldPat cfg p) (foldVals cfg vals) && !cfg.strictRouting &&
+     ((fill p vals).getLast? != some SLASH) &&
+     (foldBytes cfg (configDependentPaths cfg orig).1 == foldBytes cfg (fill p vals) ++ List.replicate 3 SLASH) &&
+     (match register cfg false (patText p) with
+      | some r => dispatch1 (fun _ _ => true) r (configDependentPaths cfg orig).2 (configDependentPaths cfg orig).1 ==
+            some [b "a7", b "B/c"] &&
+          routePatternMatch (fun _ _ => true) cfg orig (patText p) == some true
+      | none => false)) = true := by decide
 
 /-- "…and Params returns exactly those values": when the user-visible path is the fill as written,
     the values written are `vals`. -/
-theorem fill_served_values_partial {chk : Constraint → Bytes → Bool} (cfg : Config) {p : Pat} {vals : List Bytes}
+theorem fill_served_values {chk : Constraint → Bytes → Bool} (cfg : Config) {p : Pat} {vals : List Bytes}
     (orig : Bytes) (hwf : WFPat p = true) (hd : Delimited p = true)
     (hn : vals.length = (p.filter (·.isParam)).length)
-    (hcl : CleanFillCmp (foldPat cfg p) (foldVals cfg vals) = true)
+    (hcl : CleanFill (foldPat cfg p) (foldVals cfg vals) = true)
     (htr : trailingOK cfg p vals = true)
     (horig : (configDependentPaths cfg orig).1 = fill p vals) :
     ∃ r, register cfg false (patText p) = some r ∧
       dispatch1 chk r (configDependentPaths cfg orig).2 (configDependentPaths cfg orig).1 = some vals ∧
       routePatternMatch chk cfg orig (patText p) = some true := by
-  obtain ⟨r, h1, h2, h3⟩ := fill_served_partial (chk := chk) cfg orig hwf hd hn hcl htr (by rw [horig])
+  obtain ⟨r, h1, h2, h3⟩ := fill_served (chk := chk) cfg orig hwf hd hn hcl htr (by rw [horig])
   refine ⟨r, h1, ?_, h3⟩
   rw [h2, horig, slicesOf_fill p vals hn]
 
-/-- the same in the sentence's terms: `CleanFill` and outside known finding K1 -/
-theorem fill_served_sentence_partial {chk : Constraint → Bytes → Bool} (cfg : Config) {p : Pat} {vals : List Bytes}
-    (orig : Bytes) (hwf : WFPat p = true) (hd : Delimited p = true)
+/-- **Percent-decoding with UnescapePath: the filled path in ANY percent-encoding is served.** With
+    UnescapePath, whichever bytes of the fill the client writes as `%XX` (hex digits in either letter
+    case) – it has to encode `%` and `+`, which the decoder rewrites –, the user-visible path is the
+    fill (`unquote_writePath`), so the route matches, the values come back exactly and
+    `RoutePatternMatch` is true. -/
+theorem fill_served_encoded {chk : Constraint → Bytes → Bool} (cfg : Config) {p : Pat} {vals : List Bytes}
+    (ws : List Wr) (hwf : WFPat p = true) (hd : Delimited p = true)
     (hn : vals.length = (p.filter (·.isParam)).length)
-    (hcl : CleanFill (foldPat cfg p) (foldVals cfg vals) = true) (hk : Known.K1 cfg p vals = false)
+    (hcl : CleanFill (foldPat cfg p) (foldVals cfg vals) = true)
     (htr : trailingOK cfg p vals = true)
-    (horig : foldBytes cfg (configDependentPaths cfg orig).1 = foldBytes cfg (fill p vals)) :
+    (hu : cfg.unescapePath = true) (hb : ∀ c ∈ fill p vals, c < 256) (hw : wrOK (fill p vals) ws = true) :
     ∃ r, register cfg false (patText p) = some r ∧
-      dispatch1 chk r (configDependentPaths cfg orig).2 (configDependentPaths cfg orig).1 =
-        some (slicesOf p vals (configDependentPaths cfg orig).1) ∧
-      routePatternMatch chk cfg orig (patText p) = some true :=
-  fill_served_partial cfg orig hwf hd hn (cleanFill_not_K1 cfg p vals hcl hk) htr horig
+      dispatch1 chk r (configDependentPaths cfg (writePath (fill p vals) ws)).2
+        (configDependentPaths cfg (writePath (fill p vals) ws)).1 = some vals ∧
+      routePatternMatch chk cfg (writePath (fill p vals) ws) (patText p) = some true :=
+  fill_served_values cfg _ hwf hd hn hcl htr
+    (by rw [unescape_only_with_flag, hu]; exact unquote_writePath _ _ hb hw)
+
+/-- non-vacuity: `/f/:x-*` filled with `a b`, `c/d`: the space, the dash and the second slash are sent
+    percent-encoded (`%20`, `%2D`, `%2f`) -/
+example :
+    let cfg : Config := { unescapePath := true }
+    let p : Pat := [.lit (b "/f/"), .named (b "x") false, .lit (b "-"), .star]
+    let vals := [b "a b", b "c/d"]
+    let ws : List Wr := [.raw, .raw, .raw, .raw, .pct false false, .raw, .pct true true, .raw, .pct false false]
+    (WFPat p && Delimited p && CleanFill (foldPat cfg p) (foldVals cfg vals) && trailingOK cfg p vals &&
+     decide (∀ c ∈ fill p vals, c < 256) && wrOK (fill p vals) ws &&
+     (writePath (fill p vals) ws == b "/f/a%20b%2Dc%2fd")) = true := by decide
 
 /-- non-vacuity: case-insensitive, non-strict; mixed-case pattern `/Api/:Id-*.x/+` (names and
-    literals are folded by `register`), the request in yet another letter case: the values come back
-    as the request wrote them -/
+    literals are folded by `register`; the literal `.x/` has a trailing slash), the request in yet
+    another letter case: the values come back as the request wrote them -/
 example :
     let cfg : Config := {}
     let p : Pat := [.lit (b "/Api/"), .named (b "Id") false, .lit (b "-"), .star, .lit (b ".x/"), .plus]
     let vals := [b "A7", b "b.c-d", b "e/F g"]
     let orig := b "/aPI/A7-b.C-d.X/e/F g"
-    (WFPat p && Delimited p && CleanFill (foldPat cfg p) (foldVals cfg vals) && !Known.K1 cfg p vals &&
+    (WFPat p && Delimited p && CleanFill (foldPat cfg p) (foldVals cfg vals) &&
      trailingOK cfg p vals &&
      (foldBytes cfg (configDependentPaths cfg orig).1 == foldBytes cfg (fill p vals)) &&
      (match register cfg false (patText p) with
@@ -725,13 +839,29 @@ example :
           some [b "A7", b "b.C-d", b "e/F g"]
       | none => false)) = true := by decide
 
+/-- **The witness of former known finding K1 is served** (strict, case-sensitive): named parameter
+    followed by the literal dash-slash, value `a-b`. The fill creates no additional occurrence of the
+    literal; the hypotheses of `fill_served_values` hold, the route matches, `x = a-b` comes back and
+    `RoutePatternMatch` is true. (Before the repair the matcher cut the value at the first dash and
+    answered 404.) -/
+theorem former_K1_witness_served :
+    let cfg : Config := { caseSensitive := true, strictRouting := true }
+    let p : Pat := [.lit (b "/"), .named (b "x") false, .lit (b "-/")]
+    let vals := [b "a-b"]
+    (WFPat p && Delimited p && CleanFill (foldPat cfg p) (foldVals cfg vals) && trailingOK cfg p vals &&
+     !cleanFillWith cmpOfConst (foldPat cfg p) (foldVals cfg vals) &&
+     (match register cfg false (patText p) with
+      | some r => routeMatch (fun _ _ => true) r (fill p vals) (fill p vals) == some vals &&
+          routePatternMatch (fun _ _ => true) cfg (fill p vals) (patText p) == some true
+      | none => false)) = true := by decide
+
 /-- **`Params(name)` hands back the value written for that name** (ctx.go `Params`: first declared
     name equal to the key – exactly, or ignoring letter case unless CaseSensitive – decides): for a
     route whose declared names are pairwise distinct under that comparison, looking up every
     declared name in turn returns exactly the values `getMatch` wrote. Together with
-    `fill_served_partial` this is "Params returns exactly those values". (That the generated names
-    of `*`/`+` parameters – `*1`, `*2`, `+1` … – are distinct needs injectivity of decimal rendering
-    and is checked per case instead: the harness observes `Params` by name.) -/
+    `fill_served` this is "Params returns exactly those values". (That the generated names
+    of `*`/`+` parameters – `*1`, `*2`, `+1` … – are distinct is `declared_names_distinct` below;
+    `fill_served_params` puts the two together.) -/
 theorem params_return_values (cfg : Config) (names vals : List Bytes) (hlen : names.length = vals.length)
     (hdist : names.Pairwise (fun a c => nameMatch cfg a c = false)) :
     names.map (paramsLookup cfg names vals) = vals :=
@@ -741,6 +871,56 @@ example :
     let names := [b "id", b "*1", b "+1"]
     (decide (names.Pairwise (fun a c => nameMatch {} a c = false)) &&
      names.map (paramsLookup {} names [b "7", [], b "x/y"]) == [b "7", [], b "x/y"]) = true := by decide
+
+/-- **The names a documented-syntax route declares are pairwise distinct** under the comparison of
+    `ctx.Params` as soon as the names the user wrote are: the generated names `*1, *2, … / +1, +2, …`
+    (`analyseParameterPart`: `*` / `+` followed by the decimal counter) differ from each other
+    (decimal rendering is injective, `natToDec_inj`; digits are not touched by case folding) and
+    from every user name (those are alphanumeric, `WFPat`). -/
+theorem declared_names_distinct (cfg : Config) {p : Pat} {r : Route} (hwf : WFPat p = true)
+    (hr : register cfg false (patText p) = some r)
+    (hnames : (userNames p).Pairwise (fun a c => nameMatch cfg a c = false)) :
+    r.params.Pairwise (fun a c => nameMatch cfg a c = false) := by
+  obtain ⟨sr, hsr, hpar⟩ := register_params hwf hr
+  rw [hpar]
+  exact segsOf_names_distinct cfg hwf hsr hnames
+
+/-- **"…and Params returns exactly those values", by name, end to end.** Under the hypotheses of
+    `fill_served_values` and pairwise distinct *user* names (no hypothesis on the generated names any
+    more): the route is registered, the request is dispatched to it, and looking up every declared
+    name with `ctx.Params` returns the values that were filled in, one by one. -/
+theorem fill_served_params {chk : Constraint → Bytes → Bool} (cfg : Config) {p : Pat} {vals : List Bytes}
+    (orig : Bytes) (hwf : WFPat p = true) (hd : Delimited p = true)
+    (hn : vals.length = (p.filter (·.isParam)).length)
+    (hcl : CleanFill (foldPat cfg p) (foldVals cfg vals) = true)
+    (htr : trailingOK cfg p vals = true)
+    (horig : (configDependentPaths cfg orig).1 = fill p vals)
+    (hnames : (userNames p).Pairwise (fun a c => nameMatch cfg a c = false)) :
+    ∃ r vs, register cfg false (patText p) = some r ∧
+      dispatch1 chk r (configDependentPaths cfg orig).2 (configDependentPaths cfg orig).1 = some vs ∧
+      r.params.map (paramsLookup cfg r.params vs) = vals := by
+  obtain ⟨r, h1, h2, _⟩ := fill_served_values (chk := chk) cfg orig hwf hd hn hcl htr horig
+  obtain ⟨sr, hsr, hpar⟩ := register_params hwf h1
+  refine ⟨r, vals, h1, h2, ?_⟩
+  rw [hpar]
+  exact params_return_values cfg _ vals (by rw [segsOf_params_len hsr, hn])
+    (segsOf_names_distinct cfg hwf hsr hnames)
+
+/-- non-vacuity: two wildcards, a plus and two user names that differ only beyond letter case;
+    the declared names are `a`, `*1`, `+1`, `*2`, `Ab` and every one answers with its own value -/
+example :
+    let cfg : Config := {}
+    let p : Pat := [.lit (b "/"), .named (b "a") false, .lit (b "/"), .star, .lit (b "-"), .plus, .lit (b "."),
+                    .star, .lit (b "/"), .named (b "Ab") true]
+    let vals := [b "x", b "p/q", b "r", [], b "Z"]
+    (WFPat p && Delimited p && CleanFill (foldPat cfg p) (foldVals cfg vals) && trailingOK cfg p vals &&
+     decide ((userNames p).Pairwise (fun a c => nameMatch cfg a c = false)) &&
+     (match register cfg false (patText p) with
+      | some r => r.params == [b "a", b "*1", b "+1", b "*2", b "Ab"] &&
+          (match dispatch1 (fun _ _ => true) r (configDependentPaths cfg (fill p vals)).2 (configDependentPaths cfg (fill p vals)).1 with
+           | some vs => r.params.map (paramsLookup cfg r.params vs) == vals
+           | none => false)
+      | none => false)) = true := by decide
 
 /-! ## RoutePatternMatch = dispatch for the documented syntax, without run-time hypotheses -/
 
